@@ -149,8 +149,6 @@ def cuts_for(layout, tier):
         for k in range(0, rows):
             cuts.add(lo + k * w)
             cuts.add(lo + k * w + 1)
-    if tier == 'thorough':
-        cuts.update(c for c in range(lo + 1, hi) if (c - lo) % 3 == 1)
     return sorted(c for c in cuts if lo < c < hi)
 
 
@@ -203,7 +201,7 @@ def files(tier):
         else:
             for d in (1, 2):
                 out += [(kind, o) for o in F.f4_histories(kind, d)]
-            out += [(kind, o) for o in F.f4_histories(kind, 3, F.F4_OPTIONS_SMALL)]
+            out += [(kind, o) for o in F.f4_histories(kind, 3, ['abs', 'nod', (2, 1), (1, 2), (3, 2)])]
             out += [(kind, (x, g, y, z)) for x in [(2, 1), (1, 2)] for g in ('abs', 'nod') for y in [(2, 2), (1, 1)]
                     for z in ['abs', (2, 3)]]
         if kind in ('int', 'str', 'strb', 'ts', 'be'):
